@@ -165,7 +165,7 @@ static void expand_state(const Cfg &cfg, const Hist &h, const std::string &expec
             vf::wr(gfd, "N " + std::to_string(m.evals) + " " + std::to_string(nexp) + " " + std::to_string(m.nviol) + "\n");
             std::string k2 = vf::digest(bytes(g, true));
             vf::wr(gfd, "W " + k2 + "\n");
-        }, g_watch);
+        }, 4.0 * g_watch, g_watch); // g_watch limits the CPU time of the transition (a loaded machine must not turn a slow load into a hang), 4x that the wall-clock time
         std::istringstream in(o.out); std::string line, k1, k2; long ev = 0, nexp = 0; int nv = 0; bool pruned = false, exc = false;
         while(std::getline(in, line)){ std::istringstream ls(line); std::string t; ls >> t; if (t == "P") pruned = true; else if (t == "X"){ exc = true; ls >> nv; } else if (t == "K"){ ls >> k1 >> ev >> nv; } else if (t == "N"){ ls >> ev >> nexp >> nv; } else if (t == "W") ls >> k2; }
         if (pruned) continue;
@@ -200,7 +200,7 @@ static void explore_unit(const Cfg &cfg, const std::string &unit, UnitStats &S){
         bool expand = (int) h.size() < g_depth;
         std::vector<Op> ops = expand ? alphabet : std::vector<Op>();
         // hang counters are carried across children through a small text protocol
-        vf::Outcome o = vf::run_child([&](int fd){ std::map<std::string,int> hg = hangs; expand_state(cfg, h, key, unit, ops, fd, hg); std::string hs = "H"; for(auto &p : hg) hs += " " + p.first + "=" + std::to_string(p.second); vf::wr(fd, hs + "\n"); }, 60.0 + g_watch * (ops.size() + 2));
+        vf::Outcome o = vf::run_child([&](int fd){ std::map<std::string,int> hg = hangs; expand_state(cfg, h, key, unit, ops, fd, hg); std::string hs = "H"; for(auto &p : hg) hs += " " + p.first + "=" + std::to_string(p.second); vf::wr(fd, hs + "\n"); }, 60.0 + 4.0 * g_watch * (ops.size() + 2));
         S.execs++;
         std::istringstream in(o.out); std::string line;
         while(std::getline(in, line)){
@@ -231,7 +231,7 @@ int main(int argc, char **argv){
     double dl = A.getd("--deadline", 0); if (dl > 0) vf::g_deadline = vf::now() + dl;
     if (A.has("--replay")){
         std::string v = vf::slurp(A.get("--replay")); std::string cs = vf::jget(v, "case"); Cfg cfg = Cfg::parse(vf::jget(cs, "cfg")); Hist h = hparse(vf::jget(cs, "hist"));
-        g_watch = 60.0; // a timed-out history is re-run alone with a long limit before it is called a hang
+        g_watch = std::max(120.0, 2.0 * g_watch); // a timed-out history is re-run alone with a long limit (CPU seconds) before it is called a hang
         UnitStats S;
         if (h.empty()){ std::map<std::string,int> hg; vf::Outcome o = vf::run_child([&](int fd){ expand_state(cfg, h, "", "replay", std::vector<Op>(), fd, hg); }, 120.0);
             if (o.kind != vf::Outcome::OK){ std::string cls = (o.kind == vf::Outcome::SANITIZER) ? o.sanitizer_class() : o.describe(); vf::violation(g_prop + ":crash:initial-state:" + cls, "replay", cs, o.describe()); } }
